@@ -348,7 +348,7 @@ def method(ex, st, recv, name, args, kw, node=None):
         for s2, _ in ex.mutate(st, tgt, recv, new): yield s2, None
         return
     if isinstance(recv, Sym) and recv.ty.kind == "seqlist" and name == "append":
-        # in-place append on a symbolic list held in a local: rebind the local (no aliasing assumed)
+        # in-place append on a symbolic list held in a local: the local and every alias of the same object are re-bound (Exec.mutate)
         tgt = node.func.value
         new = Sym(recv.ty, z3.Concat(recv.z, z3.Unit(lift(args[0]).z)))
         for s2, _ in ex.mutate(st, tgt, recv, new): yield s2, None
